@@ -152,11 +152,12 @@ def check_bias(ctx, b, q_int, q_fq, scale, where, extra=None):
     bad = (f64 - prod).abs() > 4 * EPS32 * prod.abs() + 1e-45
     if bool(bad.any()):
         ctx.violation('bias-quantizer', dict(d, sig='fq-ne-int-times-scale'))
+    # "error below one step" (statement), with float32 slack on the quotient b/s
     ok = (s64 >= 1e-6) & ((b64 / s64.clamp_min(1e-30)).abs() < 2 ** 22)
     if int(ok.sum()) > 0:
         e = (f64 - b64).abs()[ok]
-        if bool((e > s64[ok] * (0.5 + 1e-3)).any()):
-            ctx.violation('bias-quantizer', dict(d, sig='error-above-half-step'))
+        if bool((e >= s64[ok] * (1 + 4 * EPS32) + 4 * EPS32 * b64[ok].abs()).any()):
+            ctx.violation('bias-quantizer', dict(d, sig='error-ge-step'))
 
 
 def run_quantizer_pair(q, *args):
